@@ -282,7 +282,7 @@ def _corpus(pid="C02"):
 
 
 def run(ctx):
-    run_table(ctx, CLASSES, DRIVER, ctx.n(14, 150), ctx.n(4, 20), "C02")
+    run_table(ctx, CLASSES, DRIVER, ctx.n(11, 150), ctx.n(3, 20), "C02")
 
 
 def run_table(ctx, classes, driver, per_class, per_mal, pid):
